@@ -35,4 +35,5 @@ def nctx(cx, domsizes):
     return n * len(cx["ocs"]) * len(cx["appids"]) * len(cx["gsizes"]) * len(cx["gss"]) * len(cx["has"])
 
 
-DOMSIZES = {"u3": 3, "u4": 4, "u6": 6, "w5": 5, "b3": 3, "b4": 4, "k2": 2}
+DOMSIZES = {"u3": 3, "u4": 4, "u6": 6, "w8": 8, "w5": 5, "w4": 4, "w3": 3, "w2": 2, "b3": 3, "b4": 4, "k2": 2,
+            "x16": 16, "x8": 8, "x4": 4}
